@@ -314,3 +314,72 @@ Proof.
   eexists; eexists. split; [vm_compute; reflexivity|]. split; [vm_compute; reflexivity|].
   vm_compute. discriminate.
 Qed.
+
+(* ------------------------------------------------------------------ *)
+(* success paths: the operations return a value (not RExc / RFuel) on concrete inputs
+   AND the caller's containers are still what they were                              *)
+
+Lemma extensions_clean_runs_l :
+  exists h' c, run as_written tiny_world (QClean (KExt true) (VR 1)) heap_ext = (h', RVal c) /\ length h' = 6 /\
+               get h' 0 = get heap_ext 0 /\ get h' 1 = get heap_ext 1.
+Proof. eexists; eexists. split; [vm_compute; reflexivity|]. repeat split; vm_compute; reflexivity. Qed.
+
+Lemma deepcopy_runs_l :
+  exists h' c, deepcopy 5 (VR 1) heap_ext = (h', RVal c) /\ c = VR 3.
+Proof. eexists; eexists; split; vm_compute; reflexivity. Qed.
+
+Lemma new_version_runs_l :
+  exists h' o, new_version as_written tiny_world (VR 0) [(u "name", VA (AStr (u "n")))] heap_nv = (h', RVal (VR o)) /\
+               get h' 0 = get heap_nv 0 /\ mapping_get h' (VR o) (u "name") = Some (VA (AStr (u "n"))) /\
+               mapping_get heap_nv (VR 0) (u "name") = None.
+Proof. eexists; eexists. split; [vm_compute; reflexivity|]. repeat split; vm_compute; reflexivity. Qed.
+
+Lemma parse_observable_runs_l :
+  exists h' o, run as_written tiny_world (QParseObs (VR 0) (VA ANone) (Some true) true) heap_obs = (h', RVal (VR o)) /\
+               get h' 0 = get heap_obs 0 /\ class_of h' (VR o) = Some (u "v21.File").
+Proof. eexists; eexists. split; [vm_compute; reflexivity|]. split; vm_compute; reflexivity. Qed.
+
+Lemma factory_create_runs_l :
+  exists h' o, factory_create as_written tiny_world (VR 2) (u "v21.File") (VR 3) heap_fac = (h', RVal (VR o)) /\
+               get h' 0 = get heap_fac 0 /\ get h' 1 = get heap_fac 1 /\ get h' 2 = get heap_fac 2 /\ get h' 3 = get heap_fac 3.
+Proof. eexists; eexists. split; [vm_compute; reflexivity|]. repeat split; vm_compute; reflexivity. Qed.
+
+(* a memory store (table at 1) and a caller's dict of an unregistered type (kept by reference, allow_custom) *)
+Definition heap_store : heap :=
+  [ NDict [(u "type", VA (AStr (u "x-thing"))); (u "id", VA (AStr (u "x-thing--1"))); (u "modified", VA (AStr (u "2020")))];
+    NStore [];
+    NObj (u "MemoryStore") [(u "_data", VR 1)] ].
+
+Lemma store_add_runs_l :
+  exists h', store_add as_written tiny_world FUEL 1 (VR 0) heap_store = (h', RVal (VA ANone)) /\
+             get h' 0 = get heap_store 0 /\ get h' 2 = get heap_store 2 /\
+             get h' 1 = Some (NStore [(u "x-thing--1", VR 0)]).
+Proof. eexists. split; [vm_compute; reflexivity|]. repeat split; vm_compute; reflexivity. Qed.
+
+(* granular add_markings on a caller's dict, with the caller's selector list *)
+Definition heap_mark : heap :=
+  [ NDict [(u "type", VA (AStr (u "x-thing"))); (u "created", VA (AStr (u "2020"))); (u "modified", VA (AStr (u "2020")));
+           (u "name", VA (AStr (u "n")))];
+    NList [VA (AStr (u "name"))] ].
+
+Lemma granular_add_runs_l :
+  exists h' o, granular_add as_written tiny_world (VR 0) (VA (AStr (u "marking-definition--1"))) (VR 1) heap_mark = (h', RVal (VR o)) /\
+               get h' 0 = get heap_mark 0 /\ get h' 1 = get heap_mark 1 /\
+               mapping_get h' (VR o) (u "granular_markings") <> None /\
+               mapping_get heap_mark (VR 0) (u "granular_markings") = None.
+Proof.
+  eexists; eexists. split; [vm_compute; reflexivity|]. split; [vm_compute; reflexivity|].
+  split; [vm_compute; reflexivity|]. split; [vm_compute; discriminate | vm_compute; reflexivity].
+Qed.
+
+(* a history from the empty heap in which every step returns a container *)
+Definition demo_ops : list opcall :=
+  [ OMk (XD [(u "type", XA (AStr (u "x-thing"))); (u "created", XA (AStr (u "2020"))); (u "modified", XA (AStr (u "2020")));
+             (u "labels", XL [XA (AStr (u "a"))])]);
+    ONewVersion 0 None; ODeepcopy 1; OCopy 0; OApi AGet 0 None None ].
+
+Lemma history_runs_l :
+  exists e' h', run_state as_written tiny_world demo_ops [] [] = (e', h') /\ length e' = 5 /\
+                forallb (fun v => match v with VR _ => true | VA _ => false end) e' = true /\
+                forallb public_op_d demo_ops = true.
+Proof. eexists; eexists. split; [vm_compute; reflexivity|]. repeat split; vm_compute; reflexivity. Qed.
